@@ -127,7 +127,7 @@ def metamorphic_search(ctx, shim, r, per_font, pc, pt, only_aat, name, verifier,
         if o["status"] in ("ok", "DIFF"):
             cuts += len(o["pieces"]) - 1
         if o["status"] == "DIFF":
-            cls = classify(s, kind)
+            cls = classify(s, kind, o)
             if cls: known.setdefault(cls, []).append((len(s.text), s, o))
             else: bad.append((len(s.text), s, o))
         elif o["status"] in ("noresult", "piecefail"):
@@ -136,9 +136,13 @@ def metamorphic_search(ctx, shim, r, per_font, pc, pt, only_aat, name, verifier,
                 bad.append((len(s.text), s, dict(o, status="crash", diff="crash: " + rw[:200], recon=[], whole=o.get("whole") or [])))
     checked = stat.get("ok", 0) + stat.get("DIFF", 0)
 
-    def describe(s, o):
+    def describe(s, o, cls=None):
         if o["status"] == "DIFF":
-            s, o = F.shrink(shim, s, verifier)
+            # shrink inside the class: a candidate counts only if it still differs AND is attributed to the same class
+            def same_class(shim_, cands):
+                return [dict(x, status="other-class") if x and x["status"] == "DIFF" and classify(c, kind, x) != cls else x
+                        for c, x in zip(cands, verifier(shim_, cands))]
+            s, o = F.shrink(shim, s, same_class)
         rp = s.describe()
         if s.g.get("synthetic"):
             rp.update({"font_recipe": s.g["recipe"], "font_profile": s.g["profile"]})
@@ -160,7 +164,7 @@ def metamorphic_search(ctx, shim, r, per_font, pc, pt, only_aat, name, verifier,
     kn = {}
     for cls, xs in known.items():
         xs.sort(key=lambda x: x[0])
-        rp, txt, o2 = describe(xs[0][1], xs[0][2])
+        rp, txt, o2 = describe(xs[0][1], xs[0][2], cls)
         kn[cls] = {"count": len(xs), "example": rp}
         # a documented finding class: reported as a violation whose replay carries the class; known_findings.json
         # (committed, never written at run time) turns it into a KNOWN-FINDING line
@@ -209,6 +213,22 @@ def break_fraction_search(ctx, shim, r, nfonts, per_font, pc, pt):
                        "0/1; then as break-safety-ot",
                        groups=F.fraction_groups(r, nfonts), make=lambda r, g, fl, k: F.make_fraction_shaping(r, g, fl),
                        classify=F.fraction_known_class)
+
+
+def break_stch_search(ctx, shim, r, nfonts, per_font, pc, pt):
+    metamorphic_search(ctx, shim, r, per_font, pc, pt, False, "break-safety-stch", F.verify_break, [0, 0, pc, pc | pt],
+                       "breaking at unflagged cluster starts changes the result",
+                       F.STCH_RULE + "then as break-safety-ot",
+                       groups=F.stch_groups(r, nfonts), make=lambda r, g, fl, k: F.make_stch_shaping(r, g, fl),
+                       classify=F.stch_known_class)
+
+
+def break_di_search(ctx, shim, r, nfonts, per_font, pc, pt):
+    metamorphic_search(ctx, shim, r, per_font, pc, pt, False, "break-safety-di", F.verify_break, [0, 0, pc],
+                       "breaking at unflagged cluster starts changes the result",
+                       F.DI_RULE + "then as break-safety-ot",
+                       groups=F.di_groups(r, nfonts), make=lambda r, g, fl, k: F.make_di_shaping(r, g, fl),
+                       classify=F.di_known_class)
 
 
 def gsub_flag_groups(ctx, shim, r, nfonts, per_font):
@@ -290,7 +310,14 @@ def run(ctx):
         "_infos_set_glyph_flags), of propagate_flags, and of the primitives that rename glyphs (set_cluster, delete_glyph, "
         "merge_clusters, merge_out_clusters: which flags a renamed glyph carries); tied to the crate by the flags-prims and "
         "flags-carry correspondence streams and, for the call sites inside the GSUB interpreter, by gsub-flags (Gsub.lean)",
-        "delete_glyphs_inplace has no theorem: its flag contract is the carry-exact oracle + flags-carry correspondence",
+        "delete_glyphs_inplace: the `Merge cluster backward` iteration has a theorem (C03_delin_backward_carries_flags: the run that "
+        "takes over the deleted glyph's cluster carries the deleted glyph's flags); the other branches and the whole loop are the "
+        "carry-exact oracle + flags-carry correspondence; through shape() by break-safety-di / concat-redistribution-di",
+        "apply_stch (Arabic shaper) is modelled (Stch.lean: both scans, the fit arithmetic in Int, the flag call through Buf.lean's "
+        "unsafe_to_break, the copies and offsets; not: ensure() refusing the enlarged buffer, i32 wrap-around) and tied to the crate "
+        "by stch-prims (hook arabic::apply_stch_on); C03_stch_flags: mark + whole word are flagged.  Through shape(): "
+        "break-safety-stch on synthetic and corpus stch fonts; the class arabic-pcm-stch is decided from the cut and the "
+        "difference and only applies to the concat experiment (flagslib.stch_attribution)",
         "synthetic-font streams: DIFFs in fonts that can produce a multi-glyph sequence or run a nested lookup after a deleting "
         "one are attributed to the finding classes deleted-flag-carrier / nested-delete-drift from the recipe alone "
         "(over-approximation: a new defect that shows only in such fonts would be reported under that class); 6 fonts in 10 "
@@ -315,10 +342,14 @@ def run(ctx):
     import C06 as C06mod
     ctx.correspond("gsub-flags", groups=gsub_flag_groups(ctx, shim, ctx.rng("gsub-flags"), ctx.budget(150, 3000), 10),
                    classify=C06mod.gsub_classify, canon=F.canon_panic, only=lambda ln: ln.startswith("gsub "))
+    ctx.correspond("stch-prims", groups=F.stch_prim_groups(ctx.rng("stch-prims"), ctx.budget(40, 400), ctx.budget(100, 500)),
+                   classify=F.classify_stch, canon=F.canon_panic, only=lambda ln: ln.startswith("stch "))
     interior_search(ctx, shim, ctx.rng("interior"), ctx.budget(20000, 300000))
     carry_search(ctx, shim, ctx.rng("carry-exact"), ctx.budget(10000, 200000), pc, pt)
     break_synth_search(ctx, shim, ctx.rng("break-synth"), ctx.budget(200, 4000), 12, pc, pt)
     break_fraction_search(ctx, shim, ctx.rng("break-fraction"), ctx.budget(20, 300), ctx.budget(20, 60), pc, pt)
+    break_di_search(ctx, shim, ctx.rng("break-di"), ctx.budget(150, 3000), 16, pc, pt)
+    break_stch_search(ctx, shim, ctx.rng("break-stch"), ctx.budget(100, 2000), 12, pc, pt)
     break_search(ctx, shim, ctx.rng("break-ot"), ctx.budget(60, 1200), pc, pt, False, "break-safety-ot")
     break_search(ctx, shim, ctx.rng("break-aat"), ctx.budget(150, 4000), pc, pt, True, "break-safety-aat")
 
